@@ -91,32 +91,6 @@
         std::mem::forget(m); std::mem::forget(close);
     }
 
-    /// C17 / C06 (thorough): two different keys with the SAME 64-bit hash in flight; the leader of the second one, having no
-    /// fetch of its own, asks the table under its own key and id: it finds ITS registration (not the first entry with that
-    /// hash) and takes its own waiter, the other key's fetch stays open
-    #[kani::proof]
-    #[kani::unwind(4)]
-    fn colliding_leader_without_fetch_finds_its_own_registration() {
-        let mut m = VM::new();
-        let hash: u64 = kani::any();
-        let k1: u8 = kani::any();
-        let k2: u8 = kani::any();
-        kani::assume(k1 != k2);
-        let a = lead(&mut m, hash, &k1);
-        let b = lead(&mut m, hash, &k2);
-        kani::assume(a.is_some() && b.is_some());
-        let (_ida, ca) = a.unwrap();
-        let (idb, cb) = b.unwrap();
-        let r = m.fetch_or_take::<u8, ()>(hash, &k2, idb);
-        match r {
-            Some(FetchOrTake::Notifiers(n)) => { assert!(n.len() == 1, "[leader_without_any_fetch_takes_every_waiter]"); std::mem::forget(n); }
-            Some(FetchOrTake::Fetch(f)) => { assert!(false, "[no_fetch_was_donated_so_none_is_returned]"); std::mem::forget(f); }
-            None => assert!(false, "[a_leader_finds_its_own_registration_also_behind_a_colliding_key]"),
-        }
-        assert!(cb.load(Ordering::Relaxed) && !ca.load(Ordering::Relaxed), "[taking_one_keys_waiters_closes_only_that_keys_fetch]");
-        std::mem::forget((m, ca, cb));
-    }
-
     /// id-guarded take (error / drop paths): a stale leader cannot take a newer registration.
     #[kani::proof]
     #[kani::unwind(3)]
